@@ -289,12 +289,33 @@ def config_specs(run: Run, thorough: bool):
         dict(kind="mixture_logistic", n_feat=3, source_dimension=1, noise=None, dimension_given=True, n_clusters=2, fit_iter=2, fit_seed=3),
         dict(kind="logistic", n_feat=3, source_dimension=2, noise="gaussian-diagonal", dimension_given=True, fit_iter=3, fit_seed=4),
         dict(kind="shared_speed_logistic", n_feat=3, source_dimension=1, noise=None, dimension_given=True, fit_iter=3, fit_seed=5),
+        # a JointModel whose instance name is another kind, no sources: with `features` and `dimension` dropped the file loads as a
+        # LinearModel whose DAG is built without a dimension and load_parameters refuses the joint parameters (seed-2 mismatch)
+        dict(kind="joint", n_feat=2, source_dimension=0, noise=None, dimension_given=False, name="linear", hand_seed=2),
+        dict(kind="logistic", n_feat=2, source_dimension=0, noise="gaussian-scalar", dimension_given=False, hand_seed=3),
+        dict(kind="linear", n_feat=3, source_dimension=0, noise="gaussian-scalar", dimension_given=True, name="logistic", hand_seed=4),
+        dict(kind="shared_speed_logistic", n_feat=2, source_dimension=0, noise="gaussian-scalar", dimension_given=True, hand_seed=5),
+        dict(kind="mixture_logistic", n_feat=3, source_dimension=1, noise="gaussian-scalar", dimension_given=True, n_clusters=2, hand_seed=6),
+        dict(kind="joint", n_feat=3, source_dimension=1, noise=None, dimension_given=True, hand_seed=7),
+        dict(kind="logistic", n_feat=1, source_dimension=0, noise=None, dimension_given=True, hand_seed=8),
     ]
+    for sp in directed:
+        sp["directed"] = True
     return directed + out
 
 
-def mutations(run: Run, d: dict, key):
-    """Hand edits of a settings dictionary: which keys exist, their case, their values."""
+DIM_PARAMS = ("log_g_mean", "log_v0_mean", "g_mean", "betas_mean", "deltas_mean")
+
+
+def _nodim(x):
+    x.pop("features")
+    x.pop("dimension")
+
+
+def mutations(run: Run, d: dict, key, directed: bool = False):
+    """Hand edits of a settings dictionary: which keys exist, their case, their values.  `directed`: additionally the
+    combinations around an UNKNOWN dimension (both `features` and `dimension` dropped), whose outcome depends on how far
+    load_parameters gets (DAG construction / unknown names / reshape to a (None,) shape / prior means missing)."""
     rng = run.rng("mut", key)
     out = []
 
@@ -359,6 +380,26 @@ def mutations(run: Run, d: dict, key):
     k = 6
     for tag, f in rng.sample(cands, k):
         mut(tag, f)
+    if directed:
+        other = "linear" if d.get("name") != "linear" else "logistic"
+        for tag, f in [
+            ("drop:features+dimension", _nodim),
+            ("nodim+name:other-kind", lambda x: (_nodim(x), x.update(name=other))),
+            ("nodim+name:logistic", lambda x: (_nodim(x), x.update(name="logistic"))),
+            ("nodim+param:unknown", lambda x: (_nodim(x), x["parameters"].update(foo=[1.0]))),
+            ("nodim+param:mixing", lambda x: (_nodim(x), x["parameters"].update(mixing_matrix=[[0.5]]))),
+            ("nodim+sdim:zero", lambda x: (_nodim(x), x.update(source_dimension=0))),
+            ("nodim+sdim:zero+param:no-sources", lambda x: (_nodim(x), x.update(source_dimension=0),
+                                                           [x["parameters"].pop(q, None) for q in ("betas_mean", "mixing_matrix", "sources_mean")])),
+            ("nodim+param:drop-dim-params", lambda x: (_nodim(x), [x["parameters"].pop(q, None) for q in DIM_PARAMS + ("mixing_matrix",)])),
+            ("nodim+param:wrong-numel", lambda x: (_nodim(x), x["parameters"].update(tau_mean=[70.0, 71.0, 72.0, 73.0, 74.0]))),
+            ("nodim+param:wrong-numel-noise", lambda x: (_nodim(x), x["parameters"].update(noise_std=[0.1, 0.2, 0.3, 0.4, 0.5, 0.6, 0.7]))),
+            ("nodim+param:hyper-present", lambda x: (_nodim(x), x["parameters"].update(log_v0_std=0.5))),
+            ("nodim+obs:scalar", lambda x: (_nodim(x), x.update(obs_models={"y": "gaussian-scalar"}))),
+            ("nodim+obs:scalar+sdim:zero", lambda x: (_nodim(x), x.update(obs_models={"y": "gaussian-scalar"}, source_dimension=0))),
+            ("nodim+drop:source_dimension", lambda x: (_nodim(x), x.pop("source_dimension"))),
+        ]:
+            mut(tag, f)
     return out
 
 
@@ -1102,7 +1143,7 @@ def _check(run: Run, thorough: bool, version: str, tmp: Path):
             run.fail(f"save-load:to_dict-raises:{payload}", "to_dict raised on an initialised model", spec)
             continue
         # --- T2: load of the image and of hand edits
-        for tag, d in [("image", payload)] + mutations(run, payload, idx):
+        for tag, d in [("image", payload)] + mutations(run, payload, idx, directed=bool(spec.get("directed"))):
             k2, r2 = real_load(d)
             if k2 == "err" and r2.startswith("unmodelled:"):
                 # JointModel configured with two observation models named "y" (construction-time ValueError of the DAG):
